@@ -247,6 +247,13 @@ def shard_main(args):
         return {"ok": False, "error": "HarnessError: %s" % e}
     except BaseException as e:  # noqa
         return {"ok": False, "error": "".join(traceback.format_exception(type(e), e, e.__traceback__))[-4000:]}
+    finally:
+        # pool workers are ended without running atexit handlers: remove this process's scratch directories here
+        try:
+            from .datasets import cleanup_reused
+            cleanup_reused()
+        except Exception:
+            pass
 
 
 def write_replay(prop_id, failure):
